@@ -69,10 +69,12 @@ def _get_fn_argnames(fn: Callable) -> List[str]:
     if hasattr(fn, "__wrapped__"):
         return _get_fn_argnames(fn.__wrapped__)
 
-    arg_spec_args = inspect.getfullargspec(fn).args
+    arg_spec = inspect.getfullargspec(fn)
+    # keyword-only arguments can be designated (and passed) by name
+    arg_spec_args = arg_spec.args + arg_spec.kwonlyargs
 
-    first_arg_is_self = arg_spec_args[0] == "self"
-    first_arg_is_cls = arg_spec_args[0] == "cls"
+    first_arg_is_self = bool(arg_spec.args) and arg_spec.args[0] == "self"
+    first_arg_is_cls = bool(arg_spec.args) and arg_spec.args[0] == "cls"
     is_py_newer_than_39 = sys.version_info[:2] >= (3, 9)
     # Exclusion criteria
     is_regular_method = inspect.ismethod(fn) and first_arg_is_self
@@ -285,18 +287,25 @@ def check_input(
                     args = list(bound_args.args)
             elif obj_getter is None:
                 try:
-                    _fn = _unwrap_fn(wrapped)
-                    obj_arg_name, *_ = _get_fn_argnames(wrapped)
-                    arg_spec_args = inspect.getfullargspec(_fn).args
-
-                    arg_idx = arg_spec_args.index(obj_arg_name)
+                    # the first argument: the first named parameter, or - for
+                    # a function that only takes *args - the first value
+                    obj_arg_name, *_ = _get_fn_argnames(wrapped) or [None]
 
                     named, obj = _named_argument(obj_arg_name)
                     if named:
                         kwargs[obj_arg_name] = schema.validate(
                             obj, *validate_args
                         )
-                    elif obj_arg_name in pos_args:
+                    elif obj_arg_name in pos_args or (
+                        obj_arg_name is None and args
+                    ):
+                        # position in the call as it is received (a bound
+                        # method's signature does not list ``self``)
+                        arg_idx = (
+                            0
+                            if obj_arg_name is None
+                            else [*sig.parameters].index(obj_arg_name)
+                        )
                         obj = args[arg_idx]
                         args[arg_idx] = schema.validate(obj, *validate_args)
                     else:
